@@ -277,12 +277,16 @@ func alphabet(n int, full bool) []alphaItem {
 	add("event_dkg_deal_confirm_received", "deal", "0", "x02", late)
 	add("event_dkg_response_confirm_received", "response", "0", "x03", late)
 	add("event_dkg_master_key_confirm_received", "masterKey", "0", "xaa", late, polyTokA)
-	add("event_dkg_master_key_confirm_received", "masterKey", "1", "xbb", T(5), polyTokA) // mismatching key
+	add("event_dkg_master_key_confirm_received", "masterKey", "1", "xbb", T(5), polyTokA)   // mismatching key
 	add("event_dkg_master_key_confirm_received", "masterKey", "1", "xaa", T(5), polyTokExt) // same key, the polynomial extended by one commitment
-	add("event_dkg_master_key_confirm_received", "masterKey", "1", "xaa", T(5), "x51")       // same key, junk polynomial
+	add("event_dkg_master_key_confirm_received", "masterKey", "1", "xaa", T(5), "x51")      // same key, junk polynomial
+	add("event_dkg_master_key_confirm_received", "masterKey", "1", "xaa", T(5), "x")        // same key, NO polynomial (an old machine, or a deviating one)
+	if n > 2 {
+		add("event_dkg_master_key_confirm_received", "masterKey", fmt.Sprint(n-1), "xaa", T(5), "x") // … as the last announcement
+	}
 	add("event_dkg_commit_confirm_canceled_by_error", "dkgErr", "0", "-", T(2))
 	add("event_signing_partial_sign_received", "partialSigns", hs("B"), "0", T(7), "1", hs("m1"), "x21") // other batch id
-	add("event_signing_partial_sign_received", "partialSigns", hs("A"), "0", T(7), "0")                 // empty
+	add("event_signing_partial_sign_received", "partialSigns", hs("A"), "0", T(7), "0")                  // empty
 	// machine switches and signing control
 	add("event_sig_proposal_init", sigInitArgs(n, 2, T(0))...)
 	add("event_dkg_init_process", "default", T(1))
